@@ -80,9 +80,34 @@ func init() {
 						match = u
 					}
 				}
-				construct := "shares removed from the delegation on " + v.String() + " == shares removed from the validator's total"
+				construct := "shares removed from the delegation on " + stripOrd(v.String()) + " == shares removed from the validator's total"
 				if match == nil {
-					r.Bad(fk, construct, "no updateValidatorShares call removes the shares that reduceDelegationShares removes from the delegation", nil, r.P(call))
+					// the redelegation slash lowers the delegator-share total of the same validator directly (its validator
+					// shares stay on purpose: the value is redistributed to the other positions) and persists it
+					okDirect := false
+					var stD *ssa.Store
+					for _, st := range StoresToField(fn, "types.AllianceValidatorInfo", "TotalDelegatorShares") {
+						t := fa.Term(st.Val)
+						if t.IsCall("sdk.DecCoins.Sub") && len(t.Args) == 2 {
+							el := singleCoin(&Term{Op: "call", Name: "sdk.NewCoins", Args: []*Term{t.Args[1].Args[0]}})
+							root, _, _ := fa.addrPath(st.Addr)
+							if el != nil && el.IsCall("sdk.NewDecCoinFromDec") && el.Args[1].Eq(sh) && strings.Contains(root, v.String()) {
+								okDirect, stD = true, st
+							}
+						}
+					}
+					if okDirect {
+						sv := CallsTo(fn, "keeper.Keeper.SetValidator")
+						okP := false
+						for _, c2 := range sv {
+							if argT(fa, c2, 1).Eq(v) && fa.MustFollow(stD, []ssa.Instruction{c2}) == nil {
+								okP = true
+							}
+						}
+						r.Check(okP, fk, construct, "TotalDelegatorShares := TotalDelegatorShares.Sub([denom, same shares]) on the same validator, persisted by SetValidator", "the validator's lowered delegator-share total is not persisted on every success path", r.P(stD))
+						continue
+					}
+					r.Bad(fk, construct, "no updateValidatorShares call (and no direct TotalDelegatorShares subtraction) removes the shares that reduceDelegationShares removes from the delegation", nil, r.P(call))
 					continue
 				}
 				den, _ := decCoinOf(argT(fa, match, 2))
